@@ -2,6 +2,7 @@ package rules
 
 import (
 	"fmt"
+	"go/token"
 	"go/types"
 	"strings"
 
@@ -93,3 +94,27 @@ func ruleErrorsNotDropped(ctx *Ctx, rule string, pkgs []string, callerOK func(st
 }
 
 var _ = types.Universe
+
+// flowsIntoXor: v (possibly through conversions) is an operand of an XOR.
+func flowsIntoXor(v ssa.Value, depth int) bool {
+	if depth > 3 || v.Referrers() == nil {
+		return false
+	}
+	for _, ref := range *v.Referrers() {
+		switch x := ref.(type) {
+		case *ssa.BinOp:
+			if x.Op == token.XOR {
+				return true
+			}
+		case *ssa.Convert:
+			if flowsIntoXor(x, depth+1) {
+				return true
+			}
+		case *ssa.ChangeType:
+			if flowsIntoXor(x, depth+1) {
+				return true
+			}
+		}
+	}
+	return false
+}
